@@ -17,7 +17,7 @@ from .world import SimHang, HarnessError
 _tmp = [None]
 
 
-def _scratch_cwd():
+def _scratch_cwd(blocked=False):
     """Unknown sequences make the emulator append to ./log: keep that out of /verif."""
     if _tmp[0] is None or _tmp[0][1] != os.getpid():
         d = tempfile.mkdtemp(prefix='simpex_c18_')
@@ -29,7 +29,13 @@ def _scratch_cwd():
             _mpu.Finalize(None, shutil.rmtree, args=(d, True), exitpriority=0)
         except Exception:
             pass
-    os.chdir(_tmp[0][0])
+    d = _tmp[0][0]
+    if blocked:
+        # the same, with ./log not writable (a directory of that name: the one 'disk fault' the terminal can meet --
+        # its note about an unknown sequence cannot be written)
+        d = os.path.join(d, 'blocked')
+        os.makedirs(os.path.join(d, 'log'), exist_ok=True)
+    os.chdir(d)
 
 
 def gen_param(rng, size):
@@ -130,6 +136,8 @@ def generate(rng):
             toks[-1] = t[:rng.randint(1, len(t) - 1)]
             scn['truncated'] = True
     scn['tokens'] = toks
+    if rng.random() < 0.1:
+        scn['log_blocked'] = True
     data = u''.join(toks).encode(scn['tenc']) if scn['mode'] != 'str' else u''.join(toks)
     k = rng.choice([0, 1, 2, 3, 6])
     scn['cuts'] = sorted(set(rng.randint(1, max(1, len(data) - 1)) for _ in range(k))) if len(data) > 1 else []
@@ -190,7 +198,7 @@ def check_shape(t, rows, cols):
 
 
 def run(scn):
-    _scratch_cwd()
+    _scratch_cwd(bool(scn.get('log_blocked')))
     rows, cols = scn['rows'], scn['cols']
     if rows < 1 or cols < 1:
         raise HarnessError('degenerate screen size')
